@@ -200,6 +200,43 @@ def rule_Y6(ctx) -> None:
                     "pydantic_dataclasses + a oneof with an enum member + to_dict()")
 
 
+def rule_Y8(ctx) -> None:
+    """the validation schema attached to generated enums in pydantic mode admits every enum number (int32, negative included)"""
+    n_cfg = 0
+    bad = None
+    found = 0
+    for cfg in template.configs(["plain", "oneof"], pydantic=(True,)):
+        text, sp = template.residual(ctx, cfg)
+        tree, err = template.parse_residual(text)
+        if tree is None:
+            continue
+        n_cfg += 1
+        for cls in [n for n in ast.walk(tree) if isinstance(n, ast.ClassDef)]:
+            if not any("Enum" in ast.unparse(b) for b in cls.bases):
+                continue
+            for fn in [m for m in cls.body if isinstance(m, ast.FunctionDef) and m.name == "__get_pydantic_core_schema__"]:
+                for c in [c for c in ast.walk(fn) if isinstance(c, ast.Call) and ast.unparse(c.func).endswith("int_schema")]:
+                    found += 1
+                    for kw in c.keywords:
+                        if kw.arg in ("ge", "gt", "le", "lt", "multiple_of") and isinstance(kw.value, (ast.Constant, ast.UnaryOp)):
+                            try:
+                                v = ast.literal_eval(kw.value)
+                            except Exception:
+                                continue
+                            if (kw.arg in ("ge", "gt") and v > -2 ** 31 - (kw.arg == "gt")) or (kw.arg in ("le", "lt") and v < 2 ** 31 - 1 + (kw.arg == "lt")) or kw.arg == "multiple_of":
+                                bad = (cfg.name, ast.unparse(c))
+    ctx.count(n_cfg)
+    if n_cfg == 0 or found == 0:
+        # no validation schema is attached at all: nothing restricts the numbers
+        ctx.proved("Y8", "pydantic-enum-schema:admits-int32", template.T_BODY, "no integer schema attached to enums")
+    elif bad:
+        ctx.refuted("Y8", "pydantic-enum-schema:admits-int32", bad[1], template.T_BODY,
+                    f"in pydantic mode generated enums validate as {bad[1]}: enum numbers are int32 and may be negative, so a message holding such a member cannot be constructed "
+                    "(ValidationError) although the standard dataclass accepts it", "enum E { ZERO = 0; NEG = -1; }  M(e=E.NEG) with pydantic_dataclasses")
+    else:
+        ctx.proved("Y8", "pydantic-enum-schema:admits-int32", template.T_BODY, f"{found} schema calls in {n_cfg} configurations")
+
+
 def run(ctx) -> None:
     ctx.rules_run += ["Y1", "Y2", "Y3", "Y4", "Y5", "Y6", "P3(pydantic)"]
     template.rule_Y1(ctx, full=ctx.tier == "thorough")
@@ -209,6 +246,8 @@ def run(ctx) -> None:
     rule_Y4(ctx)
     rule_Y5(ctx)
     rule_Y6(ctx)
+    ctx.rules_run.append("Y8")
+    rule_Y8(ctx)
     rule_P3(ctx, "pydantic")
     from . import presence
     ctx.rules_run.append("D1")
